@@ -94,3 +94,8 @@ CHECKS["C05"] = {"pkg": "ledger", "shards": 14, "timeout_quick": 900, "timeout_t
     "text": "Pools reached by random injection histories (conflicting spends, soft-invalid and later-hard-invalid entries, more bytes than the block limit); the block the publisher assembles must contain exactly the reference selection (eligible by hard+soft rules, ordered by saturating fee*1024/size descending then hash ascending, cut at the size limit, first of each conflict class) in that order and must be acceptable to an independent node model."}
 CHECKS["C06"] = {"pkg": "ledger", "shards": 14, "timeout_quick": 900, "timeout_thorough": 3000, "technique": LT, "note": LN,
     "text": "Interleavings of foreign/user injections (incl. re-injection), block acceptance, refresh and invalid-removal passes and restarts; admission must equal the model's hard (foreign) / hard+soft+user (user) verdict with the right error type, re-injection must report known and not duplicate, block transactions must leave the pool, validity flags and pool contents must equal the model after every step."}
+
+CHECKS["C07"] = {"pkg": "ledger", "shards": 14, "timeout_quick": 900, "timeout_thorough": 3000, "technique": LT, "note": LN + "; predicted balances are compared only while every pooled transaction still resolves its inputs; unconfirmed address queries are checked for soundness (returned transactions involve the address) and absence of crashes",
+    "text": "The ledger state machine with view actions: after steps of random histories the per-address unspent index, address count, history records of every output ever created (incl. which block and transaction spent it), confirmed transactions by hash and per address, transaction count, confirmed and predicted balances and block range queries are recomputed from the reference model and compared; a rebuild action erases the index and history progress markers, restarts the node and compares all views again."}
+CHECKS["C03"] = {"pkg": "ledger", "shards": 14, "timeout_quick": 900, "timeout_thorough": 3000, "technique": LT + "; plus property-based testing of UxOut.CoinHours against the exact formula", "note": LN + "; directly crafted blocks whose output-hour sum wraps 2^64 are not generated (documented legacy behaviour for existing blocks), the wrap class is counted if it ever occurs",
+    "text": "Ledger state machine with block times up to 2^40 seconds ahead and hour values aimed at the burn boundary: for every transaction of every block a node accepts, the output hours must not exceed the input hours accrued at the previous block's time, evaluated exactly in math/big with the documented legacy exception; injections whose output hours overflow must be rejected; accrued hours must equal initial + floor(coins*dt/3.6e9) and be monotone in time."}
